@@ -47,14 +47,15 @@ type block struct {
 	htmlType int
 	open     bool // fenced code block left open: must be the last block of its container
 	// containers
-	kids    []*block   // quote
-	items   [][]*block // list
-	ordered bool
-	start   int
-	delim   byte // '.' or ')'
-	marker  byte // '-', '+', '*'
-	tight   bool
-	breakCh byte
+	kids       []*block   // quote
+	items      [][]*block // list
+	blankStart []bool     // per item: the item begins with a blank line (marker alone on its line)
+	ordered    bool
+	start      int
+	delim      byte // '.' or ')'
+	marker     byte // '-', '+', '*'
+	tight      bool
+	breakCh    byte
 }
 
 func (b *block) endsWithPara() bool {
@@ -123,7 +124,7 @@ func canAbut(prev, next *block) bool {
 		return prev.k == kPara
 	case kList:
 		// a list interrupts a paragraph only with a non-empty first item and, if ordered, start 1
-		if len(next.items[0]) == 0 || next.items[0][0].k != kPara {
+		if len(next.items[0]) == 0 || next.items[0][0].k != kPara || next.blankStart[0] {
 			return false
 		}
 		if next.ordered && next.start != 1 {
@@ -522,7 +523,7 @@ func (g *Gen) genList(depth int) *block {
 		} else {
 			item = g.genBlocks(depth, 1+g.pick(3), true)
 			// the first child must not be an indented code block (it would need marker-relative arithmetic we do not spell) nor a ref-def
-			if item[0].k == kIndented || item[0].k == kRefDef || item[0].k == kHTML || item[0].k == kBreak && !b.ordered && item[0].breakCh == b.marker {
+			if item[0].k == kRefDef || item[0].k == kHTML || item[0].k == kBreak && !b.ordered && item[0].breakCh == b.marker {
 				item[0] = g.leafPara()
 				if len(item) > 1 && !mayFollowWithBlank(item[0], item[1]) {
 					item = item[:1]
@@ -533,7 +534,19 @@ func (g *Gen) genList(depth int) *block {
 			item = nil // empty item
 			g.St.add("list:empty-item")
 		}
+		if len(item) > 0 && item[0].k == kList {
+			// a nested list on the marker line must not start with a marker-only line: "- -   -" is a thematic break
+			item[0].blankStart[0] = false
+		}
 		b.items = append(b.items, item)
+		bs := len(item) > 0 && g.chance(1, 10)
+		if bs {
+			g.St.add("list:item-begins-with-blank-line")
+		}
+		b.blankStart = append(b.blankStart, bs)
+		if len(item) > 0 && item[0].k == kIndented {
+			g.St.add("list:item-begins-with-indented-code")
+		}
 	}
 	if !b.tight {
 		// a loose list needs a blank line somewhere: between items or between the children of an item
@@ -611,4 +624,3 @@ func (g *Gen) genTightItem(depth int) []*block {
 	}
 	return item
 }
-
